@@ -22,6 +22,31 @@ CHECKS = {
         'DESIGN.md section 6 C18'),
 }
 
+CHECKS['C15'] = (
+    'exhaustive enumeration of all labelled spike trains up to a length bound on a small time grid '
+    '(space mode) against a double-loop pair counter',
+    'Bounded exhaustive exploration: every non-decreasing spike train of length <= 5 (7 thorough) on a '
+    '6-sample (7) grid x every 2-cluster labelling, every train of length <= 3 (5) x every 3-(4-)cluster '
+    'labelling, and an enumerated periodic long family, each x 6 (bin, half-window) points x cluster-id '
+    'lists (None, every order, with an id without spikes) x symmetrize on/off x 4 exact sample rates, '
+    'compared entry by entry with a double loop over pairs; firing_rate against the outer product. '
+    'The suite pins two trains.',
+    'Sample rates are powers of two so that time*rate is exact; cluster-id lists contain every present '
+    'id (documented precondition); long trains only from the periodic family.',
+    'DESIGN.md section 6 C15')
+CHECKS['C16'] = (
+    'exhaustive enumeration of all (length, chunk, overlap), (length, n_excerpts, size), file-size lists '
+    'x chunk lengths and compressed-reader configurations up to bounds (space mode) with tiling '
+    'invariants checked on every one',
+    'Bounded exhaustive exploration: chunk_bounds for every n <= 40 (120), chunk <= 12 (24), overlap < '
+    'chunk; excerpts/get_excerpts for every n, n_excerpts <= 6, size <= 6; _get_chunk_bounds and real '
+    'FlatEphysReader objects on real files for every list of 1-3 file sizes <= 6 (8) x chunk length <= 8 '
+    '(10); real .cbin readers for n <= 8 x chunk x threads x cache. Invariants: kept parts concatenate '
+    'to the data, bounds strictly increase 0..n, contain file boundaries, gaps <= chunk, iterator '
+    'intervals tile the recording.',
+    'mtscomp creates the compressed inputs and is trusted; lengths beyond the bounds are not covered.',
+    'DESIGN.md section 6 C16')
+
 NOT_YET = {}
 
 ALL = ['C%02d' % i for i in range(1, 21)]
